@@ -160,6 +160,24 @@ Fixpoint tos_writes (rs : rstate) (chunks : list bytes) : list (bytes * endst) :
   | c :: r => match tos_write rs c with (t, st, rs') => (t, st) :: tos_writes rs' r end
   end.
 
+(** resuming: the input arrives in pieces; after each piece everything available is read; an incomplete
+    trailing entry stays pending (the stream position is back at its start) *)
+Definition pending_of (e : scan_end) : bytes :=
+  match e with SEof => [] | SErrHdr rest => rest | SErrPayload rest _ => rest end.
+
+Fixpoint resume (rs : rstate) (pending : bytes) (pieces : list bytes) : list (view * bytes) * rstate * bytes :=
+  match pieces with
+  | [] => ([], rs, pending)
+  | d :: r =>
+    let (ps, e) := scan (pending ++ d) in
+    match read_fold rs ps EndOk with
+    | (ls, _, _, rs') =>
+      let pending' := pending_of e in
+      match resume rs' pending' r with (ls2, rsf, pend) => (ls ++ ls2, rsf, pend) end
+    end
+  end.
+
+
 End Print.
 
 (** * nextEvent loop that continues after event-level errors (library users; C14) *)
